@@ -1209,6 +1209,22 @@ func (p *pinner) Update(ctx context.Context, from, to cid.Cid, unpin bool) error
 		return err
 	}
 
+	// A recursive pin supersedes a direct pin of the same CID, as in Pin.
+	// The direct pin is removed after the recursive pin has been written so
+	// that `to` stays pinned if the process stops in between.
+	//
+	// TODO: remove this to support multiple pins per CID
+	toDirect, err := p.cidDIndex.HasAny(ctx, to.KeyString())
+	if err != nil {
+		return err
+	}
+	if toDirect {
+		_, err = p.removePinsForCid(ctx, to, ipfspinner.Direct)
+		if err != nil {
+			return err
+		}
+	}
+
 	if unpin {
 		_, err = p.removePinsForCid(ctx, from, ipfspinner.Recursive)
 		if err != nil {
